@@ -34,7 +34,7 @@ for p in props:
         text = c.get("level_text") or (
             "Theorems in coq/%s (closed under the global context, stdlib only) about a hand-written Gallina model of the code, proved for all inputs; the model is tied to /repo on every run by translators (constants and tables; the node-cache hash; %s) and by a differential correspondence (%s)."
             % (", ".join(c.get("coq_targets", [])).replace(".vo", ".v"),
-               ("93 leaf functions of src/bytes.rs, src/raw/node.rs, src/raw/mod.rs (Output, Bound, Fst::new conditions), src/raw/crc32.rs and src/automaton/mod.rs regenerated as Gallina and proved equal to the model for all inputs in coq/SrcFunTie.v and coq/SrcFunTie2.v" if ("SrcFunTie.vo" in c.get("coq_targets", []) or "SrcFunTie2.vo" in c.get("coq_targets", [])) else "no translated leaf function belongs to this property"),
+               ("about a hundred leaf functions of src/bytes.rs, src/raw/node.rs, src/raw/mod.rs (Output, Bound, bound setters, Fst::new conditions), src/raw/crc32.rs (masking, slice-by-16 loop), src/raw/ops.rs (heap order) and src/automaton/mod.rs regenerated as Gallina and proved equal to the model for all inputs in coq/SrcFunTie.v and coq/SrcFunTie2.v" if ("SrcFunTie.vo" in c.get("coq_targets", []) or "SrcFunTie2.vo" in c.get("coq_targets", [])) else "no translated leaf function belongs to this property"),
                c.get("correspondence", "")[:400]))
         if partial:
             text += " PARTIAL: " + partial
